@@ -232,10 +232,9 @@ func reifyMap(opts *options, to reflect.Value, from *Config, validators []valida
 		}
 	}
 
-	if err := runValidators(to.Interface(), validators); err != nil {
-		return raiseValidation(from.ctx, from.metadata, "", err)
-	}
-	if err := tryValidate(to); err != nil {
+	// validate the map as a whole, so that entries kept from the target are
+	// validated like the ones taken from the configuration
+	if err := tryRecursiveValidate(to, opts, validators); err != nil {
 		return raiseValidation(from.ctx, from.metadata, "", err)
 	}
 
